@@ -479,8 +479,9 @@ class Engine:
                 return
             for a, cond in c.raises.items():
                 if exc_is(o.exc, a) and cond:
-                    g = self.spec_bool(cond, st)
-                    self.oblige_raw(st, 'raise-only-when', g, f'{o.exc} raised only when: {cond}')
+                    ctext = cond[4:] if cond.startswith('iff:') else cond
+                    g = self.spec_bool(ctext, st)
+                    self.oblige_raw(st, 'raise-only-when', g, f'{o.exc} raised only when: {ctext}')
             for a, posts in c.exc_ensures.items():
                 if exc_is(o.exc, a):
                     for p in posts:
@@ -530,7 +531,7 @@ class Engine:
         """Every heap field not listed in `modifies` must equal its entry value."""
         for key, v in st.heap.items():
             objname, f = key
-            if f'{objname}.{f}' in self.c.modifies:
+            if f'{objname}.{f}' in self.c.modifies or self.fnode.name == '__init__':
                 continue
             old = st.old_heap.get(key)
             if old is None or old is v:
@@ -680,6 +681,10 @@ class Engine:
             if not isinstance(obj, VObj):
                 raise Unsupported('attribute store on a non-object', tgt)
             if tgt.attr not in obj.rt.mut:
+                if self.fnode.name == '__init__' and tgt.attr in obj.rt.rec.fields and obj.name == 'self':
+                    # object under construction: its (later immutable) fields are being established
+                    st.heap[(obj.name, tgt.attr)] = self.coerce(v, obj.rt.rec.fields[tgt.attr], tgt)
+                    return
                 raise Unsupported(f'store to undeclared mutable field {obj.name}.{tgt.attr}', tgt)
             st.heap[(obj.name, tgt.attr)] = self.coerce(v, obj.rt.mut[tgt.attr], tgt)
         else:
@@ -1466,6 +1471,8 @@ class Engine:
 
     def getattr(self, base, attr, st, node):
         if isinstance(base, VObj):
+            if (base.name, attr) in st.heap:
+                return st.heap[(base.name, attr)]
             if attr in base.rt.mut:
                 return st.heap[(base.name, attr)]
             if attr in base.rt.rec.fields:
